@@ -109,9 +109,15 @@ pub enum RespKind {
 
 pub fn observe() -> Observed {
     ic_btc_canister::with_state(|s| {
-        let hashes: Vec<Hash32> = ic_btc_canister::state::get_block_hashes(s)
+        // The unstable set is read level by level (anchor first), deliberately *not* through
+        // `state::get_block_hashes`, which is what the canister itself uses to build its
+        // get_successors request: the request is then checked against an independent reading.
+        let hashes: Vec<Hash32> = s
+            .unstable_blocks
+            .block_hashes_with_depths_by_heights()
             .iter()
-            .map(|h| {
+            .flat_map(|level| level.iter())
+            .map(|(h, _)| {
                 let mut a = [0u8; 32];
                 a.copy_from_slice(h.as_bytes());
                 a
@@ -232,6 +238,9 @@ pub struct World {
     /// set when the canister advanced its anchor to a child the rule does not allow and the model
     /// advanced to the child the rule names instead
     pub reference_took_other_step: bool,
+    /// eager mode: (tip, percentiles) that must have been cached by the message in which `tip`
+    /// became the best tip (None = unknown)
+    pub eager_expected: Option<(usize, Vec<u64>)>,
     pub last_fee_answer: Option<Vec<u64>>,
     pub send_tx_count: u64,
     // ---- bookkeeping ----
@@ -325,6 +334,7 @@ impl World {
             fee_cache: None,
             fee_candidates: vec![],
             reference_took_other_step: false,
+            eager_expected: None,
             last_fee_answer: None,
             send_tx_count: 0,
             stats: Stats::default(),
